@@ -2,6 +2,8 @@ import QlibcModel.Conc.Cfg
 import QlibcModel.Conc.Lin
 import QlibcModel.Conc.LinNeg
 import QlibcModel.Generated.LockWl
+import QlibcModel.Generated.LockAtomic
+import QlibcModel.Conc.AtomicLin
 import QlibcModel.Generated.MutexMacros
 import QlibcModel.Conc.Mutex
 /-! C13 — the thread-safe option makes concurrent use linearizable.
@@ -66,6 +68,36 @@ theorem unlocked_read_not_linearizable :
       (seqRun lostP [(0, 0), (1, 0)] (0, fun _ => 0)).1 = 2 ∧
       (seqRun lostP [(1, 0), (0, 0)] (0, fun _ => 0)).1 = 2 :=
   ⟨incrBad_not_wellLocked, Qlibc.Conc.Lin.unlocked_read_not_linearizable⟩
+
+/-! ### the wrapper layer: one critical section per call
+
+`wl_<fn>` alone would accept a convenience wrapper that composes two self-locking calls
+(`getfirst(); …; removefirst();` instead of `popfirst()`): every access is under the lock, yet the call
+is not atomic.  `Generated.atomic_<fn>` (LockAtomic1-4.lean, regenerated from the current source, also
+audited) certifies for every public function of the containers -- all of qqueue/qstack/qgrow and the
+str/int convenience methods included -- that no path takes the lock from depth 0 twice. -/
+
+/-- every public container function passes the one-critical-section certificate -/
+theorem all_atomic : ∀ c ∈ atomicCfgs, phasesOk c.2.1 c.2.2 = true := atomic_all
+
+/-- soundness, ALL paths: a certified function acquires the lock from depth 0 at most once per call -/
+theorem one_critical_section_per_call : ∀ c ∈ atomicCfgs, ∀ (k : Nat) (es : List Ev),
+    Path c.2.2 0 es k → outerLocks 0 es ≤ 1 := by
+  intro c hc k es p
+  exact phasesOk_sound (atomic_bal_all c hc) (atomic_all c hc) p
+
+/-- connection with (1): every complete call of a function that has BOTH certificates is, under any
+    interpretation of its events in which the quiet events are local, an operation
+    `pre* ; acquire ; body* ; release ; post*` satisfying `Op.WellLocked` -- the hypothesis of
+    `wellLocked_linearizable`; it is linearizable at its single outermost acquisition. -/
+theorem certified_call_is_wellLocked_op {σ L : Type} (name : String) (ph : List Nat) (c : Cfg)
+    (hscope : (name, c) ∈ c13Cfgs) (hat : (name, ph, c) ∈ atomicCfgs)
+    (sem : Ev → MStep σ L) (hsem : ∀ e, Quiet lockExempt e → (sem e).IsLocal)
+    {k : Nat} {es : List Ev} (p : Path c 0 es k) (hk : depthAt c k = some 0) :
+    ∃ op : Op σ L, op.WellLocked ∧ op.pre ++ (op.body ++ op.post) = es.map sem ∧
+      ∃ pre mid post, es = pre ++ mid ++ post ∧ op.pre = pre.map sem ∧ op.body = mid.map sem ∧
+        op.post = post.map sem ∧ (mid = [] ∨ ∃ m, mid = .lock :: m ∧ insideOk 1 m = true) :=
+  atomic_call_is_wellLocked_op (wl_all (name, c) hscope) (atomic_all (name, ph, c) hat) sem hsem p hk
 
 /-- the Q_MUTEX_* macros of the CURRENT source (token lists regenerated by translator/mutexmacros.py
     on every run) are the ones Conc/Mutex.lean transcribes; a changed macro breaks this obligation -/
